@@ -266,16 +266,24 @@ func (bh *Header) Clone() *Header {
 		c.refs[i] = new(Reference)
 		*c.refs[i] = *r
 		c.refs[i].owner = c
+		// The copy must not share mutable state with the original.
+		c.refs[i].otherTags = append([]tagPair(nil), r.otherTags...)
+		if r.uri != nil {
+			u := *r.uri
+			c.refs[i].uri = &u
+		}
 	}
 	for i, r := range bh.rgs {
 		c.rgs[i] = new(ReadGroup)
 		*c.rgs[i] = *r
 		c.rgs[i].owner = c
+		c.rgs[i].otherTags = append([]tagPair(nil), r.otherTags...)
 	}
 	for i, p := range bh.progs {
 		c.progs[i] = new(Program)
 		*c.progs[i] = *p
 		c.progs[i].owner = c
+		c.progs[i].otherTags = append([]tagPair(nil), p.otherTags...)
 	}
 	for k, v := range bh.seenRefs {
 		c.seenRefs[k] = v
